@@ -96,7 +96,10 @@ def cond_substituter(path):
             if isinstance(st, ast.Assign) and len(st.targets) == 1 and isinstance(st.targets[0], ast.Name):
                 env[st.targets[0].id] = subst(st.value, env)
             elif isinstance(st, (ast.AugAssign,)) and isinstance(st.target, ast.Name):
-                env.pop(st.target.id, None)
+                if st.target.id in env:
+                    env[st.target.id] = ast.BinOp(left=env[st.target.id], op=st.op, right=subst(st.value, env))
+                else:
+                    env.pop(st.target.id, None)
             elif isinstance(st, ast.For):
                 for n in ast.walk(st.target):
                     if isinstance(n, ast.Name):
